@@ -1,6 +1,6 @@
 (** C03 — path shape.  Property theorems only; proofs live in Proofs/. *)
 From Coq Require Import List ZArith Bool.
-From TR Require Import Eng.Engine Eng.Parallel Eng.Timed Spec.C03 Spec.C07 Proofs.EngShape Proofs.EngParallel Proofs.EngCorollaries Generated.GoValidate Proofs.GoTieValidate.
+From TR Require Import Eng.Engine Eng.Parallel Eng.Timed Spec.C03 Spec.C07 Proofs.EngShape Proofs.EngParallel Proofs.EngCorollaries Generated.GoValidate Proofs.GoTieValidate Lib.GoLists Generated.GoClip Proofs.GoTieClip.
 Import ListNotations.
 Open Scope Z_scope.
 
@@ -58,4 +58,10 @@ Print Assumptions C03_validateProbe_tied.
 Theorem C03_validateProbe_rejects_nil t first last : go_common_TracerouteParams_validateProbe true t first last = false.
 Proof. exact (@go_validateProbe_rejects_nil t first last). Qed.
 Print Assumptions C03_validateProbe_rejects_nil.
+
+(** tie kind A, regenerated on every run by tools/goextract: clipResults as it stands in the source (slices.IndexFunc, the two re-slicings) is the model's [clip] wherever the model does not hit the slice-bounds panic; slots are compared as (is nil, IsDest), which is all the function looks at *)
+Theorem C03_clipResults_tied first rs r : 0 <= first -> clip first rs = Some r ->
+  go_common_clipResults first (map enc_slot rs) = map enc_slot r.
+Proof. exact (@go_clipResults_is_clip first rs r). Qed.
+Print Assumptions C03_clipResults_tied.
 
